@@ -395,6 +395,33 @@ func (fs *Facts) prove(op string, x, y ssa.Value, ctx FactSet, depth int) bool {
 	px, okx := x.(*ssa.Phi)
 	py, oky := y.(*ssa.Phi)
 	var blk *ssa.BasicBlock
+	if okx && oky && px.Block() != py.Block() {
+		// two phis of different blocks: expand the later one first (its incoming edges see the earlier one as a plain
+		// value), then the other way round
+		first, second := px, py
+		if px.Block().Dominates(py.Block()) {
+			first, second = py, px
+		}
+		for _, ph := range []*ssa.Phi{first, second} {
+			ok := true
+			for i, pred := range ph.Block().Preds {
+				xi, yi := x, y
+				if ph == px {
+					xi = px.Edges[i]
+				} else {
+					yi = py.Edges[i]
+				}
+				if !fs.prove(op, xi, yi, fs.edgeFacts(pred, ph.Block()), depth+1) {
+					ok = false
+					break
+				}
+			}
+			if ok {
+				return true
+			}
+		}
+		return false
+	}
 	switch {
 	case okx && oky && px.Block() == py.Block():
 		blk = px.Block()
@@ -404,6 +431,11 @@ func (fs *Facts) prove(op string, x, y ssa.Value, ctx FactSet, depth int) bool {
 	case oky:
 		blk = py.Block()
 	default:
+		// values produced by a transparent helper: prove the relation at the helper's return, with the helper's facts
+		if hx, hy, ret := helperResults(x, y); ret != nil {
+			sub := fs.p.MustFacts(ret.Parent())
+			return sub.prove(op, hx, hy, sub.At(ret), depth+1)
+		}
 		return false
 	}
 	for i, pred := range blk.Preds {
@@ -432,7 +464,7 @@ func (fs *Facts) ProveOnEdge(op string, x, y ssa.Value, pred, succ *ssa.BasicBlo
 // branch condition of their source block.
 func EdgesWithFact(fn *ssa.Function, pred func(Fact) bool) []Edge {
 	var out []Edge
-	for _, b := range fn.Blocks {
+	for _, b := range BlocksT(fn) {
 		if len(b.Instrs) == 0 {
 			continue
 		}
@@ -501,4 +533,76 @@ func (fs *Facts) entryFactsFor(g *ssa.Function) FactSet {
 		}
 	}
 	return out
+}
+
+// helperResults: when x and/or y are results of one call to a transparent helper with a single return (the other may be a
+// constant or also a result of that call), the corresponding returned values and the return instruction.
+func helperResults(x, y ssa.Value) (ssa.Value, ssa.Value, *ssa.Return) {
+	callOf := func(v ssa.Value) (*ssa.Call, int) {
+		v = unwrap(v)
+		if e, ok := v.(*ssa.Extract); ok {
+			if cl, ok := e.Tuple.(*ssa.Call); ok {
+				return cl, e.Index
+			}
+		}
+		if cl, ok := v.(*ssa.Call); ok {
+			return cl, 0
+		}
+		return nil, 0
+	}
+	cx, ix := callOf(x)
+	cy, iy := callOf(y)
+	inside := func(v ssa.Value, c *ssa.Call) bool {
+		in, ok := v.(ssa.Instruction)
+		g := TransparentCallee(c)
+		return ok && g != nil && in.Parent() == g
+	}
+	if cx != nil && TransparentCallee(cx) == nil {
+		cx = nil
+	}
+	if cy != nil && TransparentCallee(cy) == nil {
+		cy = nil
+	}
+	var call *ssa.Call
+	switch {
+	case cx != nil && cy == nil && inside(y, cx):
+		call = cx
+	case cy != nil && cx == nil && inside(x, cy):
+		call = cy
+	case cx != nil && cy != nil && cx == cy:
+		call = cx
+	case cx != nil && cy == nil:
+		if _, ok := y.(*ssa.Const); ok {
+			call = cx
+		}
+	case cy != nil && cx == nil:
+		if _, ok := x.(*ssa.Const); ok {
+			call = cy
+		}
+	}
+	if call == nil {
+		return nil, nil, nil
+	}
+	g := TransparentCallee(call)
+	if g == nil {
+		return nil, nil, nil
+	}
+	rs := returnsOf(g)
+	if len(rs) != 1 {
+		return nil, nil, nil
+	}
+	res := func(c *ssa.Call, i int, orig ssa.Value) ssa.Value {
+		if c == nil {
+			return orig
+		}
+		if i >= len(rs[0].Results) {
+			return orig
+		}
+		r := rs[0].Results[i]
+		if srcs := resolveLocal(r); len(srcs) == 1 {
+			r = srcs[0]
+		}
+		return r
+	}
+	return res(cx, ix, x), res(cy, iy, y), rs[0]
 }
